@@ -162,24 +162,29 @@ def run(tier, seed, only=None):
                    [gt(x, 0) for x in ins["t_over_c"].ravel()] + [le(x, S(0.3)) for x in ins["t_over_c"].ravel()] +
                    [gt(ins["re"][0], 0), gt(ins["S_ref"][0], 0), gt(M, 0), lt(M, S(0.95))])
             # turbulent / laminar chord Reynolds numbers above 1e3: log10 > 3 is given to the solver as a fact of the box
-            paths = sc.sym(ins, assumptions=adm)
-            cdv = paths[0].result["outputs"]["CDv"].ravel()[0]
+            paths = sc.sym(ins, assumptions=adm, max_paths=64)
             from symoas.sym import reachable
-            logs = [n for n in reachable([cdv]) if n.op == "log"]
-            box = adm + [gt(l, 3 * S(2.302585092994046)) for l in logs]  # ln(Re_c k) > ln(1e3)
             tag = "ViscousDrag[k_lam=%g,ny=%d]" % (k_lam, ny)
             obs = []
-            if k_lam in (0.0, 1.0):
-                obs.append(oblig.Ob("CDv > 0", cond=le(cdv, 0), assume=box, meta={"family": "viscous drag is positive (fully turbulent / fully laminar)", "kind": "pos"}))
-                dre = diff.diff_all([cdv], ins["re"][0])[0]
-                obs.append(oblig.Ob("dCDv/dRe < 0", cond=ge(dre, 0), assume=box, meta={"family": "viscous drag decreases with Reynolds number (fully turbulent / fully laminar)", "kind": "dre"}))
-                for e in range(ny - 1):
-                    dt = diff.diff_all([cdv], ins["t_over_c"][e])[0]
-                    obs.append(oblig.Ob("dCDv/d(t/c)[%d] > 0" % e, cond=le(dt, 0), assume=box, meta={"family": "viscous drag increases with thickness ratio", "kind": "dtc", "e": e}))
-            else:
-                # with transition the sign of the strip skin-friction sum needs monotonicity of x / log10(x)^2.58, which is
-                # outside the instantiated axioms: posed, reported inconclusive when the solver cannot decide
-                obs.append(oblig.Ob("CDv > 0 (transition)", cond=le(cdv, 0), assume=box, meta={"family": "viscous drag is positive (with transition)", "kind": "pos"}))
+            # every path of the component (a change that adds a branch - a clamp, a special case - adds paths): the chord
+            # Reynolds numbers re * lengths are above 1e3 on all of them (the property's range)
+            rec = [gt(ins["re"][0] * x, S(1e3)) for x in ins["lengths"].ravel()]
+            for pi, p_ in enumerate(paths):
+                cdv = p_.result["outputs"]["CDv"].ravel()[0]
+                logs = [n for n in reachable([cdv]) if n.op == "log"]
+                box = adm + rec + p_.conds + [gt(l, 3 * S(2.302585092994046)) for l in logs]  # ln(Re_c k) > ln(1e3)
+                pt = "" if len(paths) == 1 else " path %d" % pi
+                if k_lam in (0.0, 1.0):
+                    obs.append(oblig.Ob("CDv > 0" + pt, cond=le(cdv, 0), assume=box, meta={"family": "viscous drag is positive (fully turbulent / fully laminar)", "kind": "pos"}))
+                    dre = diff.diff_all([cdv], ins["re"][0])[0]
+                    obs.append(oblig.Ob("dCDv/dRe < 0" + pt, cond=ge(dre, 0), assume=box, meta={"family": "viscous drag decreases with Reynolds number (fully turbulent / fully laminar)", "kind": "dre"}))
+                    for e in range(ny - 1):
+                        dt = diff.diff_all([cdv], ins["t_over_c"][e])[0]
+                        obs.append(oblig.Ob("dCDv/d(t/c)[%d] > 0%s" % (e, pt), cond=le(dt, 0), assume=box, meta={"family": "viscous drag increases with thickness ratio", "kind": "dtc", "e": e}))
+                else:
+                    # with transition the sign of the strip skin-friction sum needs monotonicity of x / log10(x)^2.58, which is
+                    # outside the instantiated axioms: posed, reported inconclusive when the solver cannot decide
+                    obs.append(oblig.Ob("CDv > 0 (transition)" + pt, cond=le(cdv, 0), assume=box, meta={"family": "viscous drag is positive (with transition)", "kind": "pos"}))
             f = real_out(sc, ins, "CDv")
 
             def vrp(ob, env, f=f):
